@@ -24,7 +24,7 @@ pub const SWAP: Id = 106;
 pub const ORACLE: Id = 107;
 pub const KEEPER: Id = 108;
 pub const SINK: Id = 109;
-pub const VALS: [Id; 5] = [201, 202, 203, 204, 205];
+pub const VALS: [Id; 12] = [201, 202, 203, 204, 205, 206, 207, 208, 209, 210, 211, 212];
 pub const CAST: [Id; 24] = [
     1, 2, 3, 4, 5, 6, 7, 8, 9, 100, 101, 102, 103, 104, 105, 106, 107, 108, 109, 201, 202, 203, 204,
     205,
